@@ -2,6 +2,7 @@ import Utv.Model.C18
 import Utv.Lemmas.C18
 import Utv.Lemmas.C18Cost
 import Utv.Lemmas.C18Unamb
+import Utv.Lemmas.C18Fuel
 /-!
 C18 — the depth limit is exact and parse cost stays bounded.
 
@@ -2212,5 +2213,92 @@ theorem C18_limit_not_inherited_witness :
 
 /-- non-vacuity of `uniformLimits` -/
 example : uniformLimits 3 (withLimit 3 nodeEnv) = true := by decide
+
+end Utv.C18
+
+namespace Utv.C18
+
+/-! ### fuel adequacy
+
+`fuel` only bounds the recursion of the model.  With `need H T v = vsize v · (H+2) + tyH T + 1` units (`H` = the greatest
+height of a field type of the declarations) the recursion never reaches the bottom: the outcome never carries the
+exhaustion flag and is the same for every larger amount.  So the `isOk = false` conclusions of `C18_deep_rejected`,
+`C18_cyclic_rejected`, `C18_seqcycle_rejected` are genuine rejections (`C18_rejection_genuine`), not exhaustion. -/
+
+/-- **Fuel adequacy**: with at least `need H T v` fuel the outcome (1) never reports exhaustion and (2) is the outcome
+for every other adequate amount of fuel — the fuel-independent result. -/
+theorem C18_fuel_adequate (W : World) (Q : Quirks) (E : Env) (H : Nat) (hE : envH H E = true) (fuel : Nat)
+    (c : Ctx) (T : Ty) (v : Val) (hn : need H T v ≤ fuel) :
+    (∀ f, (parse W Q E fuel c T v).1 = .err f → f.fuel = false) ∧
+    (∀ fuel', need H T v ≤ fuel' → parse W Q E fuel' c T v = parse W Q E fuel c T v) := by
+  have stable : ∀ n j, need H T v ≤ n → parse W Q E (n + j) c T v = parse W Q E n c T v := by
+    intro n j hnj
+    rw [parse_eq_iter, parse_eq_iter, iter_add]
+    exact iter_indep H hE _ _ n c T v hnj
+  constructor
+  · intro f hf
+    rw [parse_eq_iter, iter_indep H hE outOfFuel (fun _ _ _ => (.err {}, 0)) fuel c T v hn] at hf
+    exact iter_noFuel _ (fun _ _ _ g hg => by simp at hg; subst hg; rfl) fuel c T v f hf
+  · intro fuel' hn'
+    by_cases hle : fuel ≤ fuel'
+    · obtain ⟨j, rfl⟩ := Nat.exists_eq_add_of_le hle
+      exact stable fuel j hn
+    · have hle' : fuel' ≤ fuel := by omega
+      obtain ⟨j, rfl⟩ := Nat.exists_eq_add_of_le hle'
+      exact (stable fuel' j hn').symm
+
+/-- a rejection obtained with adequate fuel is a rejection for every adequate fuel, and not an exhaustion -/
+theorem C18_rejection_genuine (W : World) (Q : Quirks) (E : Env) (H : Nat) (hE : envH H E = true) (fuel : Nat)
+    (c : Ctx) (T : Ty) (v : Val) (hn : need H T v ≤ fuel) (hrej : (parse W Q E fuel c T v).1.isOk = false) :
+    (∃ f, (parse W Q E fuel c T v).1 = .err f ∧ f.fuel = false) ∧
+    ∀ fuel', need H T v ≤ fuel' → (parse W Q E fuel' c T v).1.isOk = false := by
+  have ha := C18_fuel_adequate W Q E H hE fuel c T v hn
+  constructor
+  · cases h : (parse W Q E fuel c T v).1 with
+    | ok r => rw [h] at hrej; cases hrej
+    | err f => exact ⟨f, rfl, ha.1 f h⟩
+  · intro fuel' hn'
+    rw [ha.2 fuel' hn']; exact hrej
+
+theorem envH_withLimit (H d : Nat) (E : Env) : envH H (withLimit d E) = envH H E := by
+  simp [envH, withLimit, List.all_map, Function.comp_def]
+
+/-- **Inputs deeper than the limit are rejected — genuinely**: `C18_deep_rejected` with adequate fuel gives a
+`ParseError` outcome without the exhaustion flag, for every adequate amount of fuel. -/
+theorem C18_deep_rejected_adequate (W : World) (Q : Quirks) (hQ : Q.falsyRoute = false) (hR : Q.rootLevel = false)
+    (E : Env) (H : Nat) (hE : envH H E = true) (d : Nat) (hd : d ≠ 0) (fuel : Nat) (via : Bool) (k : Nat) (v : Val)
+    (n : Nat) (hf : Forced E (.data k) v n) (hdn : d < n) (hn : need H (.data k) v ≤ fuel) :
+    ∃ f, (parseTop W Q (withLimit d E) fuel via k v).1 = .err f ∧ f.fuel = false := by
+  have hrej := C18_deep_rejected W Q hQ hR E d hd fuel via k v n hf hdn
+  simp only [parseTop] at hrej ⊢
+  exact (C18_rejection_genuine W Q (withLimit d E) H (by rw [envH_withLimit]; exact hE) fuel _ _ v hn hrej).1
+
+/-- non-vacuity: the declarations used above have small heights, and a concrete adequate fuel -/
+example : envH 1 nodeEnv = true ∧ need 1 (.data 0) (badChain 2) = 19 := by decide
+
+end Utv.C18
+
+namespace Utv.C18
+
+/-! ### every context the model builds is within its own limit
+
+(the hypothesis `hc : exceeded c.md c.depth = false` of the T1 obligation `Utv.GenEq.C18.C18_gen_init_enter`): the root
+context of `parseTop` / `parseAssign` has no limit, a class context exists only after its check passed, and `enter`
+keeps level and limit. -/
+
+theorem C18_classCtx_within (d : Nat) (cd : ClassDecl) (c' : Ctx) (h : classCtx d cd = .ok c') :
+    exceeded c'.md c'.depth = false ∧ c'.depth = d + 1 ∧ c'.md = cd.maxDepth := by
+  simp only [classCtx] at h
+  split at h
+  · cases h
+  · rename_i hex
+    simp only [Out.ok.injEq] at h
+    subst h
+    exact ⟨by simpa using hex, rfl, rfl⟩
+
+theorem C18_enter_keeps_within (Q : Quirks) (hQ : Q.falsyRoute = false) (c : Ctx) (b : Bool) (m : Mode)
+    (hc : exceeded c.md c.depth = false) :
+    ∃ c', enter Q c b m = .ok c' ∧ exceeded c'.md c'.depth = false ∧ c'.depth = c.depth ∧ c'.md = c.md :=
+  ⟨_, enter_fixed Q hQ c b m, hc, rfl, rfl⟩
 
 end Utv.C18
